@@ -31,7 +31,7 @@ TIERS = {
     "quick": {"cfgs": ["MC_Subshell_quick.cfg", "MC_Subshell_all1.cfg"], "sim": (100, 4, 40),
               "explore": ["--plans", "6", "--dfs-max", "2", "--random", "0"],
               "explore_sim": ["--plans", "8", "--dfs-max", "2", "--random", "1"]},
-    "thorough": {"cfgs": ["MC_Subshell_all2.cfg", "MC_Subshell_core3.cfg"], "sim": (2500, 4, 40),
+    "thorough": {"cfgs": ["MC_Subshell_all2.cfg", "MC_Subshell_core3.cfg"], "sim": (2000, 4, 40),
                  "explore": ["--plans", "12", "--dfs-max", "4", "--random", "2"],
                  "explore_sim": ["--plans", "16", "--dfs-max", "3", "--random", "2"]},
 }
